@@ -247,4 +247,81 @@ theorem history12_safe (C : Checked S) (C2 : Checked2 S Ct) {P : Params} (hS : S
     simp only [history]
     exact ⟨this.1, fun hp => ih _ (this.2 hp).2.2 (this.2 hp).1 (this.2 hp).2.1⟩
 
+/-! ## the initial state -/
+
+theorem between2_init (C : Checked S) (C2 : Checked2 S Ct) {P : Params} (hS : S.code = P.code.map shape)
+    (input : V) (vars : List V) (hi : vpure input = true) (hv : ∀ v ∈ vars, vpure v = true) :
+    Between2 S Ct P (initSt input vars) := by
+  unfold Between2
+  obtain ⟨A1, hV1, G1, hl1, hf1, hk1, hq1, hs1, hp1, hb1⟩ := pushes_view (S := S) [input] {} ⟨[], [], [], []⟩ view_empty (ginv_empty S)
+    (fun v hv' => by simp at hv'; rw [hv']; exact hi)
+  simp only [List.foldl_cons, List.foldl_nil] at hV1 G1 hs1 hp1 hb1
+  obtain ⟨A2, hV2, G2, hl2, hf2, hk2, hq2, hs2, hp2, hb2⟩ := pushes_view (S := S) vars.reverse _ A1 hV1 G1
+    (fun v hv' => hv v (by simpa using hv'))
+  have hV2 : View (initSt input vars).env A2 := hV2
+  -- the scope stack and the variables are still empty
+  have hsc : (initSt input vars).env.scopes = ({} : Stack Scope) := hs2
+  have hforks : A2.forks = [] := by rw [hk2, hk1]
+  have hfr : A2.frames = [] := by rw [hf2, hf1]
+  have hbt : (entry P (initSt input vars)).backtrack = false := by
+    simp only [entry]; exact hb2
+  have hpc : (entry P (initSt input vars)).pc = 0 := by
+    simp only [entry]; exact hp2
+  have hRg : Rg (initSt input vars).env.scopes = -1 := by
+    rw [hsc]; rfl
+  have hblk : ∀ j : Int, j ≤ -1 → blockAt (initSt input vars).env.scopes.data j = none := by
+    intro j hj; unfold blockAt; rw [if_neg (by omega)]
+  have hforksE : (initSt input vars).env.forks = [] :=
+    hV2.forks_nil.mpr hforks
+  refine ⟨A2, hV2, ⟨?_, ?_, ?_, ?_⟩, by rw [hforks]; intro f hf; simp at hf, ?_⟩
+  · intro j h0 hj; rw [hRg] at hj; omega
+  · intro j sc hj hb; rw [hRg] at hj; rw [hblk j hj] at hb; cases hb
+  · intro j j' sc sc' hlt hj' hb hb'; rw [hRg] at hj'; rw [hblk j' hj'] at hb'; cases hb'
+  · intro f hf; rw [hforksE] at hf; simp at hf
+  · rw [if_neg (by rw [hbt]; simp)]
+    obtain ⟨id0, r0, hsa0, hav0, hasm0⟩ := C2.root
+    obtain ⟨nv0, na0⟩ := r0
+    -- the `scope` instruction at pc 0
+    have hc0 : ∃ vars0 nargs0, codeAt S 0 = some (.scope id0 vars0 nargs0) ∧ na0 = nargs0.toNat := by
+      unfold scopeAt at hsa0
+      cases hc : S.code[0]? with
+      | none => rw [hc] at hsa0; simp at hsa0
+      | some i =>
+        rw [hc] at hsa0
+        cases i <;> simp at hsa0
+        rename_i id vars0 nargs0
+        obtain ⟨rfl, _, rfl⟩ := hsa0
+        exact ⟨vars0, nargs0, by unfold codeAt; simp [hc], rfl⟩
+    obtain ⟨vars0, nargs0, hc0, hna⟩ := hc0
+    have hna0 : na0 = 0 := by
+      have hroot := C.root
+      unfold entryH at hroot
+      have hc0' := hc0
+      unfold codeAt at hc0'
+      simp only [Int.le_refl, if_true, Int.toNat_zero] at hc0'
+      rw [hc0'] at hroot
+      simp only at hroot
+      split at hroot
+      · simp only [Option.some.injEq] at hroot
+        omega
+      · cases hroot
+    obtain ⟨a, ha, _⟩ := C2.entry 0 _ hc0 rfl
+    refine ⟨a, _, by rw [hpc]; exact ha, by rw [hpc]; exact hc0, ?_⟩
+    rw [if_pos (by simp [isScope])]
+    refine ⟨id0, nv0, na0, by rw [hpc]; exact hsa0, ?_⟩
+    have hsize : 1 ≤ S.size := by have := codeAt_range C.last; omega
+    have hcp : (entry P (initSt input vars)).callpc = S.size - 1 := by
+      simp only [entry]; rw [size_map hS]
+    refine ⟨?_, ?_, ⟨fun _ => ?_, fun h => by rw [hcp] at h; omega⟩, fun n hn => by omega, .inl ⟨by rw [hcp]; omega, by rw [hfr]; trivial⟩⟩
+    · show Good S Ct (initSt input vars).env.scopes.data (initSt input vars).env.values
+        (.v id0 (match blockAt (initSt input vars).env.scopes.data (-1) with | some sc => effOuter sc (-1) id0 | none => -1))
+      rw [hblk (-1) (Int.le_refl _)]
+      exact .v (.nil (by decide)) (fun x hx => .inl (hav0 x hx)) (fun xi hxi => by rw [hasm0] at hxi; simp at hxi)
+        (fun xi hxi => by rw [hasm0] at hxi; simp at hxi)
+    · show (-1 : Int) ≤ Rg (initSt input vars).env.scopes
+      rw [hRg]; exact Int.le_refl _
+    · show (match blockAt (initSt input vars).env.scopes.data (-1) with | some sc => effOuter sc (-1) id0 | none => -1) ≤ (initSt input vars).env.scopes.index
+      rw [hblk (-1) (Int.le_refl _), hsc]
+      exact Int.le_refl _
+
 end Gojq.SafeVM
